@@ -276,6 +276,8 @@ def run_temperature(plan, out, log):
                 if done2 != cfg["n_iter"]:
                     violation(out, "completes", "iterations_missing:second_run", f"{done2} != {cfg['n_iter']}")
                 mon2.finish(done2)
+            elif isinstance(exc2, fitsim.RerunSetupFailed):
+                C["skip.second_run_model_not_initialisable"] += 1
             elif not isinstance(exc2, LeaspyConvergenceError):
                 violation(out, "completes", f"second_run_raised:{type(exc2).__name__}", f"{desc}: {type(exc2).__name__}: {exc2}")
             log.add("T2", [round(float(t), 12) if isinstance(t, (int, float)) else str(t) for _, t in mon2.trace])
@@ -295,7 +297,9 @@ def run_scale(plan, out, log):
 
     try:
         world = stepsim.StepWorld(cfg, log, C)
-    except LeaspyInputError as e:
+    except Exception as e:
+        if not isinstance(e, LeaspyInputError):
+            raise _Setup(f"{type(e).__name__}")      # (cohort on which the model cannot be initialised: nothing to observe)
         if cfg.get("zero_start_component") and "should be positive" in str(e):
             # a start value without a usable default scale is refused before anything runs: consistent with the envelope
             C["probe.degenerate_start_refused"] += 1
